@@ -137,7 +137,7 @@ func modelResolve(text string, tree map[string]any, canonDefaults ...bool) (stri
 }
 
 var c16Words = []string{"va", "vb", "alpha", "dev", "prod", "h1", "h2", "x-y", "p.q", "a/b"}
-var c16Defaults = []string{"dflt", "fallback", "d1", "zz", "007", "1.10", "TRUE", "'q'", ""}
+var c16Defaults = []string{"dflt", "fallback", "d1", "zz", "007", "1.10", "TRUE", "'q'", "", "Hello ", " - ", "two words", " lead"}
 
 func genC16Config(c *core.Ctx) c16Cfg {
 	cfg := c16Cfg{tree: map[string]any{}}
@@ -159,6 +159,12 @@ func genC16Config(c *core.Ctx) c16Cfg {
 			t[k] = c.Rng.Intn(500)
 		case 4:
 			t[k] = c.Rng.Intn(2) == 0
+		case 6: // a configured value that carries an expression: whoever quotes it gets the expression evaluated
+			if c.Rng.Intn(2) == 0 {
+				t[k] = []string{"#{1+2}", "#{7*6}", "n=#{10-3}", "#{'a'+'b'}"}[c.Rng.Intn(4)]
+				break
+			}
+			t[k] = c16Words[c.Rng.Intn(len(c16Words))]
 		case 5: // value containing a placeholder
 			o := fmt.Sprintf("k%d", 1+c.Rng.Intn(6))
 			t[k] = []string{"${" + o + "}", "pre-${" + o + ":dd}-post", "${" + o + ":${env}}"}[c.Rng.Intn(3)]
@@ -323,7 +329,7 @@ func (p c16) Run(c *core.Ctx) {
 	}
 	switch kind {
 	case "value", "prop":
-		if !sniffable(want) {
+		if !sniffable(want) && !strings.Contains(want, "#{") {
 			if r.Outcome() != "ok" || got != any(want) {
 				if got != any(wantCanon) {
 					class = "" // not explained by canonicalised defaults
